@@ -1,5 +1,5 @@
 \* C15 quick: simulated clear/reuse cycles, plain
-\* run by hand:  cd spec && tlc -workers 8 RunGenSketch.tla -config cfg/C15__RunGenSketch__simulated_clear_reuse_cycles_plain.cfg -simulate num=125 -depth 17 -seed 2   (root module generated by the harness: see the .tla file next to this one; copy it to spec/ first)
+\* run by hand:  cd spec && tlc -workers 8 RunGenSketch.tla -config cfg/C15__RunGenSketch__simulated_clear_reuse_cycles_plain.cfg -simulate num=125 -depth 17 -seed 1   (root module generated by the harness: see the .tla file next to this one; copy it to spec/ first)
 INIT GenInit
 NEXT GenNext
 CONSTANTS
